@@ -9,7 +9,7 @@ from ..harness import Violation
 ID = "C15"
 LEVEL = "exploration"
 RULE = ("(a) in memory, metamorphic: Hypothesis-generated sessions run once with a transport that accepts everything and once with generated per-call write capacities "
-        "(1 byte .. unlimited, varying per call, the accepted count returned; also a transport returning None): the device-side byte stream must decode to the same packet sequence "
+        "(1 byte .. unlimited, varying per call, the accepted count returned; also a transport returning None; also a write call that fails outright at a drawn call index: a call that then returns normally must not leave an incomplete message at the peer): the device-side byte stream must decode to the same packet sequence "
         "and all results must be equal, or the call raised. (b) real loopback TCP: AdbDevice(TcpTransport)/AdbDeviceAsync(TcpTransportAsync) push 64 KiB..3 MiB to a socket server "
         "running the simulator with SO_RCVBUF=4096, a slow reader and client SO_SNDBUF=4096, transport_timeout_s set: content on the simulator == source, or the call raised. "
         "Non-trivial: >= 1 write call accepted fewer bytes than offered. Distinct = case hash.")
@@ -21,10 +21,42 @@ def mem_cases(draw):
     case = draw(sc.session(max_ops=4, with_wcap=True))
     if draw(st.sampled_from([False, False, False, True])):
         case["transport"]["ret_none"] = True
+    elif draw(st.sampled_from([False, False, True])):
+        # a write that fails outright in the middle of the session (possibly right after a short write of the same message)
+        case["transport"]["faults"] = {str(draw(st.integers(2, 60))): draw(st.sampled_from(["w_timeout", "w_pipe"]))}
     return case
 
 
+def check_faulted(case):
+    """Short writes AND a failing write: a call may raise, but a call that returns normally must not leave a torn message at the peer."""
+    pend = {}
+
+    def before(out, i, op):
+        if i > 0:
+            pend[i - 1] = out.core.sim.decoder.pending
+    o = runner.run(case, before_op=before)
+    info = {"classes": [o.api, "write-fault"]}
+    if o.watchdog:
+        info["inconclusive"] = True
+        return None, info
+    pend[len(o.results) - 1] = o.core.sim.decoder.pending
+    for i, res in enumerate(o.results):
+        if "exc" in res:
+            break          # "or the call raises"; what happens on the broken connection afterwards is not this property's subject
+        if pend.get(i, 0):
+            return Violation("message-silently-truncated", "op %d %r returned normally, but the peer holds %d bytes of an incomplete message (a write failed or was short and the rest was never sent)"
+                             % (i, o.ops[i].get("op"), pend[i])), info
+    for sim in o.sims:
+        if sim.framing_error is not None and not any("exc" in r for r in o.results):
+            return Violation("peer-stream-corrupt", str(sim.framing_error)), info
+    info["nontrivial"] = o.core.short_writes > 0 or any("exc" in r for r in o.results)
+    info["sample"] = {"ops": [x["op"] for x in case["ops"]], "wcap": case["transport"].get("wcap"), "faults": case["transport"]["faults"], "results": [r.get("exc", "ok") for r in o.results]}
+    return None, info
+
+
 def check_mem(case):
+    if case["transport"].get("faults"):
+        return check_faulted(case)
     base = dict(case)
     base["transport"] = dict(case["transport"], wcap=[], ret_none=False)
     o1 = runner.run(base)
